@@ -953,7 +953,18 @@ func (e *Ev) assertTo(x Term, to types.Type, n ast.Node) (Term, string) {
 		r.S = app("oref", x.S)
 		if _, isPtr := to.Underlying().(*types.Pointer); isPtr {
 			// no typed-nil pointer is ever stored in an interface by this package
-			e.define(smtImp(ok, app(">", r.S, "0")))
+			c := smtImp(ok, app(">", r.S, "0"))
+			var used []string
+			for _, qv := range e.qvars {
+				name := qv[1:strings.Index(qv, " ")]
+				if strings.Contains(c, name) {
+					used = append(used, qv)
+				}
+			}
+			if len(used) > 0 {
+				c = fmt.Sprintf("(forall (%s) %s)", strings.Join(used, " "), c)
+			}
+			e.define(c)
 		}
 	case sStr:
 		r.S = app("ostr", x.S)
